@@ -70,6 +70,60 @@ WEAK_KEYS = [bytes.fromhex(k) for k in (
     "011F011F010E010E", "1F011F010E010E01")]
 
 
+import traffic
+
+HINTS = None      # hints.Hints when the current source holds constants the snapshot lacks (change-directed search aid)
+
+
+def hinted_bytes(R, n, base=None):
+    """n bytes of random content carrying one hinted pattern at a place where structure tends to matter: an end, a block
+    boundary, anywhere; or filled with a hinted byte value"""
+    m = bytearray(base if base is not None else R.randbytes(n))
+    if not HINTS or not n:
+        return bytes(m)
+    c = R.random()
+    if c < .15 and HINTS.byte_values:
+        return bytes([R.choice(HINTS.byte_values)]) * n
+    if HINTS.patterns:
+        for _ in range(R.choice([1, 1, 2])):
+            p = R.choice(HINTS.patterns)[:n]
+            where = R.choice(["start", "end", "end", "block", "blockend", "any"])
+            if where == "start": i = 0
+            elif where == "end": i = n - len(p)
+            elif where == "block": i = min(n - len(p), 8 * R.randrange(0, n // 8 + 1))
+            elif where == "blockend": i = max(0, min(n - len(p), 8 * R.randrange(1, n // 8 + 2) - len(p)))
+            else: i = R.randrange(0, n - len(p) + 1)
+            m[i:i + len(p)] = p
+    return bytes(m)
+
+
+def hint_grid(R, cap=4000):
+    """a bounded, systematic list of byte strings built from the hinted patterns: every pattern at the start and at the
+    end of every small hinted size (and of sizes one block around it), the rest zero / random — and when at most one
+    byte is left free, every value of that byte"""
+    if not HINTS or not HINTS.patterns:
+        return []
+    sizes = sorted({n for n in HINTS.lengths if n <= 72} | {n + d for n in HINTS.lengths if n <= 64 for d in (8, 16)} | {5, 8, 16})
+    out = []
+    for p in HINTS.patterns[:24]:
+        for n in sizes:
+            if n < len(p):
+                continue
+            free = n - len(p)
+            for where in ("start", "end"):
+                if free <= 1:
+                    for b in (range(256) if free == 1 else [None]):
+                        rest = b"" if b is None else bytes([b])
+                        out.append(p + rest if where == "start" else rest + p)
+                else:
+                    for fill in (bytes(free), R.randbytes(free)):
+                        out.append(p + fill if where == "start" else fill + p)
+            if len(out) > cap * 3:
+                break
+    R.shuffle(out)
+    return out[:cap]
+
+
 class G:
     """generator state for one run: a small pool of keys and messages so that calls repeat arguments
     (which is what exposes caches keyed on too little)"""
@@ -91,6 +145,16 @@ class G:
         for m in ("000000000000FFFF", "FFFF000000000000", "FFFFFFFFFFFFFFFF", "00000000000000FF"):
             self.keys.append(h3 + bytes(a ^ b for a, b in zip(h3, bytes.fromhex(m))))
         self.keys.append(h3 + bytes(a ^ b ^ (rng.randrange(2)) for a, b in zip(h3, bytes.fromhex("000000000000FFFF"))))
+        # the masks the derivations themselves xor into a half (tree: 0^7 F0; common key: F0 / 0F at the third byte;
+        # complement): a key or IV whose halves differ by one of them; a half that is all zero; a small integer
+        h4 = rng.randbytes(8)
+        self.structured = [h4 + bytes(a ^ b for a, b in zip(h4, bytes.fromhex(m))) for m in
+                           ("00000000000000F0", "0000FF0000000000", "0000F00000000000", "00000F0000000000", "000000000000FFFF", "FFFFFFFFFFFFFFFF")]
+        self.structured += [bytes(8) + h4, h4 + bytes(8), bytes(15) + b"\x01", bytes(8) + bytes(7) + b"\x01", b"\x01" + bytes(15),
+                            bytes(16), b"\xf0" * 16, b"\xff" * 16]
+        self.keys += [self.structured[0], self.structured[1], bytes(8) + h4, h4 + bytes(8)]
+        self._kcv_halves = None
+        self._grid = None
         self.msgs = [self.fresh_msg() for _ in range(6)]
         # parity variants of pooled keys (what a cache keyed on a parity-normalised key confuses)
         self.variants = []
@@ -129,6 +193,27 @@ class G:
     def fresh_key(self, n=16):
         return self.R.randbytes(n)
 
+    def structured16(self):
+        """16 bytes for an IV / key position: usually one of the structured values, else random"""
+        return self.R.choice(self.structured) if self.R.random() < .5 else self.R.randbytes(16)
+
+    def kcv_equal_halves_key(self):
+        """a 16-byte key whose two *different* halves have the same 3-byte check value as single-DES keys (birthday
+        search over a few thousand halves on the real cipher); None when the search fails"""
+        if self._kcv_halves is None:
+            from cryptography.hazmat.primitives.ciphers import Cipher, algorithms, modes
+            seen = {}
+            self._kcv_halves = False
+            for _ in range(12000):
+                h = self.R.randbytes(8)
+                c = Cipher(algorithms.TripleDES(h), modes.ECB()).encryptor().update(bytes(8))[:3]
+                o = seen.get(c)
+                if o is not None and bytes(b & 0xFE for b in o) != bytes(b & 0xFE for b in h):
+                    self._kcv_halves = o + h
+                    break
+                seen[c] = h
+        return self._kcv_halves or None
+
     def kcv_colliding_pair(self, nbytes=3, tries=40000):
         """two different 16-byte keys (not parity variants) with the same key check value — what a cache
         indexed by a check value confuses; birthday search on the real TDES"""
@@ -146,7 +231,18 @@ class G:
         """a well-sized key, usually from the pool"""
         if self.R.random() < 0.02:
             self.poison()
+        if HINTS and self.R.random() < 0.25:
+            R = self.R
+            a = R.randbytes(8)
+            if R.random() < .5:                          # halves related by a mask made of a hinted pattern
+                mask = hinted_bytes(R, 8, bytes(8))
+                return a + bytes(x ^ y for x, y in zip(a, mask))
+            return hinted_bytes(R, 16)
         c = self.R.random()
+        if c < 0.02:
+            k = self.kcv_equal_halves_key()
+            if k:
+                return k
         if c < 0.55:
             return self.R.choice(self.keys)
         if c < 0.62:                                # halves of a pooled key in swapped roles
@@ -164,7 +260,22 @@ class G:
 
     def fresh_msg(self, maxlen=80):
         R = self.R
+        if HINTS:
+            if self._grid is None:
+                self._grid = hint_grid(R)
+            if self._grid and R.random() < .6:
+                return self._grid.pop()
+        if R.random() < .2:
+            return traffic.message(R)                  # fields as real traffic carries them, not uniform contents
         n = R.choice([0, 1, 7, 8, 9, 15, 16, 17, 23, 24, 25, R.randrange(0, maxlen), R.randrange(0, maxlen)])
+        if HINTS and R.random() < 0.5:
+            if HINTS.lengths and R.random() < .5:
+                big = [x for x in HINTS.lengths if 4096 < x <= 70000]     # larger sizes are the k-MiB generators' business
+                small = [x for x in HINTS.lengths if x <= 4096]
+                n = R.choice(big) if big and R.random() < .01 else (R.choice(small) if small else n)
+                if R.random() < .3:
+                    n = max(0, n + R.choice([-8, 8, 16, -1, 1, 7]))
+            return hinted_bytes(R, n)
         m = R.randbytes(n)
         c = R.random()
         if c < .1 and n:
@@ -189,10 +300,18 @@ class G:
     def sized(self, n, pbad=0.0):
         if self.R.random() < pbad:
             return self.R.randbytes(self.R.choice([0, max(0, n - 1), n + 1, 2 * n]))
+        if HINTS and self.R.random() < 0.3:
+            return hinted_bytes(self.R, n)
         return self.R.randbytes(n)
 
     def digits(self, n):
-        return "".join(self.R.choice("0123456789") for _ in range(n))
+        d = "".join(self.R.choice("0123456789") for _ in range(n))
+        if HINTS and n and self.R.random() < 0.3 and (HINTS.digit_strs or HINTS.byte_values):
+            R = self.R
+            p = (R.choice(HINTS.digit_strs) if HINTS.digit_strs and R.random() < .7 else str(R.choice(HINTS.byte_values) % 10) * R.randrange(1, n + 1))[:n]
+            i = R.choice([0, n - len(p), R.randrange(0, n - len(p) + 1)])
+            d = d[:i] + p + d[i + len(p):]
+        return d
 
     def distinct_digits(self, n):
         """digits with few repeats so that nibble order is visible"""
@@ -523,6 +642,39 @@ def sha_decimals(pan, psn):
     t = ("0" + t) if len(t) % 2 else t
     h = hashlib.sha1(bytes.fromhex(t)).hexdigest()
     return h
+
+
+def _extreme_chunk(args):
+    base, n, psn, limit = args
+    out = []
+    sha1 = hashlib.sha1
+    dele = str.maketrans("", "", "abcdef")
+    for i in range(n):
+        pan = str(base + i)
+        t = pan + psn
+        if len(t) % 2:
+            t = "0" + t
+        h = sha1(bytes.fromhex(t)).hexdigest()
+        nd = len(h.translate(dele))
+        if nd <= limit:
+            out.append((nd, pan, psn, h))
+    return out
+
+
+def extreme_pairs(rng, per_worker, limit=11, nproc=16):
+    """PAN/PSN pairs (17..19-digit PANs) whose SHA-1 digest has at most `limit` decimal digits - the far tail of the
+    top-up branch (nine or more letters needed at seven) — by a parallel search over consecutive PANs from random bases;
+    (pairs sorted by decimal count, hashes tried)"""
+    import multiprocessing as mp
+    jobs = []
+    for _ in range(nproc):
+        nd = rng.choice([17, 18, 19])
+        base = rng.randrange(10 ** (nd - 1), 10 ** nd - per_worker - 1)
+        jobs.append((base, per_worker, "%02d" % rng.randrange(100), limit))
+    with mp.Pool(nproc) as pool:
+        parts = pool.map(_extreme_chunk, jobs)
+    found = sorted(x for p in parts for x in p)
+    return found, per_worker * nproc
 
 
 def rare_pairs(rng, want, letters_needed=True):
